@@ -86,11 +86,18 @@ type boltTx struct {
 	hasRoot  bool
 	done     bool
 	bucket   *bbolt.Bucket
+	cursors  []*boltCur
 }
 
+// boltCur: a cursor of the writing transaction keeps standing on "its" key when the transaction inserts or
+// deletes other keys (real bbolt: a positioned cursor keeps reading the leaf it is on), a key deleted under
+// the cursor makes Next land on its successor, and keys inserted AHEAD of the cursor are met later on
+// (real bbolt: they are seen once the scan reaches a leaf that was rewritten) - the last point is what makes
+// a scan that rewrites its own index entries revisit documents.
 type boltCur struct {
-	tx  *boltTx
-	pos int
+	tx      *boltTx
+	pos     int
+	deleted bool // the key under the cursor was deleted: its successor now sits at pos
 }
 
 var boltDBs = map[*bbolt.DB]*boltDB{}
@@ -203,6 +210,13 @@ func BoltPut(b *bbolt.Bucket, key, value []byte) error {
 	if len(key) == 0 {
 		return errors.New("key required")
 	}
+	if i, found := find(t.data, key); !found {
+		for _, c := range t.cursors {
+			if i <= c.pos {
+				c.pos++ // inserted behind (or at) the cursor: it keeps standing on the same key
+			}
+		}
+	}
 	t.data = put(t.data, kv{k: clone(key), v: value, nilVal: value == nil})
 	return nil
 }
@@ -226,6 +240,15 @@ func BoltDelete(b *bbolt.Bucket, key []byte) error {
 	if !t.writable {
 		return errors.New("tx not writable")
 	}
+	if i, found := find(t.data, key); found {
+		for _, c := range t.cursors {
+			if i < c.pos {
+				c.pos--
+			} else if i == c.pos {
+				c.deleted = true
+			}
+		}
+	}
 	t.data = del(t.data, key)
 	return nil
 }
@@ -233,7 +256,9 @@ func BoltDelete(b *bbolt.Bucket, key []byte) error {
 //verif:redirect (*go.etcd.io/bbolt.Bucket).Cursor BoltCursor
 func BoltCursor(b *bbolt.Bucket) *bbolt.Cursor {
 	c := &bbolt.Cursor{}
-	boltCursors[c] = &boltCur{tx: boltBuckets[b], pos: -1}
+	cur := &boltCur{tx: boltBuckets[b], pos: -1}
+	boltCursors[c] = cur
+	cur.tx.cursors = append(cur.tx.cursors, cur)
 	return c
 }
 
@@ -249,13 +274,16 @@ func (c *boltCur) at() ([]byte, []byte) {
 func BoltSeek(c *bbolt.Cursor, seek []byte) ([]byte, []byte) {
 	s := boltCursors[c]
 	s.pos, _ = find(s.tx.data, seek)
+	s.deleted = false
 	return s.at()
 }
 
 //verif:redirect (*go.etcd.io/bbolt.Cursor).Next BoltNext
 func BoltNext(c *bbolt.Cursor) ([]byte, []byte) {
 	s := boltCursors[c]
-	if s.pos < len(s.tx.data) {
+	if s.deleted {
+		s.deleted = false // the successor of the deleted key already sits at pos
+	} else if s.pos < len(s.tx.data) {
 		s.pos++
 	}
 	return s.at()
@@ -264,6 +292,7 @@ func BoltNext(c *bbolt.Cursor) ([]byte, []byte) {
 //verif:redirect (*go.etcd.io/bbolt.Cursor).Prev BoltPrev
 func BoltPrev(c *bbolt.Cursor) ([]byte, []byte) {
 	s := boltCursors[c]
+	s.deleted = false
 	if s.pos >= 0 {
 		s.pos--
 	}
@@ -311,6 +340,7 @@ type bdgIter struct {
 	reverse bool
 	pos     int
 	item    *badger.Item
+	lastKey []byte // buffer handed out by the last Item().Key(): "only valid as long as item is valid" (badger docs)
 }
 
 var bdgDBs = map[*badger.DB]*bdgDB{}
@@ -456,6 +486,11 @@ func BadgerRewind(it *badger.Iterator) {
 //verif:redirect (*github.com/dgraph-io/badger/v4.Iterator).Next BadgerNext
 func BadgerNext(it *badger.Iterator) {
 	s := bdgIters[it]
+	// the iterator reuses its item buffers once it advances: whoever kept the slice sees other bytes
+	for i := range s.lastKey {
+		s.lastKey[i] = 0xEE
+	}
+	s.lastKey = nil
 	if s.reverse {
 		s.pos--
 	} else {
@@ -472,7 +507,11 @@ func BadgerValid(it *badger.Iterator) bool {
 //verif:redirect (*github.com/dgraph-io/badger/v4.Iterator).Item BadgerItem
 func BadgerItem(it *badger.Iterator) *badger.Item {
 	s := bdgIters[it]
-	return newItem(s.snap[s.pos])
+	e := s.snap[s.pos]
+	if s.lastKey == nil {
+		s.lastKey = clone(e.k)
+	}
+	return newItem(kv{k: s.lastKey, v: e.v})
 }
 
 //verif:redirect (*github.com/dgraph-io/badger/v4.Iterator).Close BadgerIterClose
@@ -488,4 +527,9 @@ func BadgerItemValue(item *badger.Item, fn func(val []byte) error) error {
 		v = nil // badger hands an empty value to the callback as a nil/empty slice
 	}
 	return fn(v)
+}
+
+//verif:redirect (*github.com/dgraph-io/badger/v4.Item).KeyCopy BadgerItemKeyCopy
+func BadgerItemKeyCopy(item *badger.Item, dst []byte) []byte {
+	return append(dst[:0], bdgItems[item].k...)
 }
